@@ -382,7 +382,31 @@ fn fixed_contexts() -> Vec<Ctx> {
     out
 }
 
+/// the structure walk reads the Debug listing of `Chunk`: make sure it still looks the way the reader expects before
+/// judging anything with it (a change of that format is not a violation of C09)
+fn listing_format_ok() -> Result<(), String> {
+    tera::verif::set_recording(true);
+    tera::verif::set_optimize(true);
+    let mut t = tera::Tera::new();
+    let r = t.add_raw_template("probe", "{{ a.b }}{% if c %}x{% endif %}");
+    let listings = tera::verif::take_listings();
+    tera::verif::set_recording(false);
+    r.map_err(|e| e.to_string())?;
+    let (_, before, _) = listings.iter().find(|(n, _, _)| n.contains("probe")).or(listings.first()).ok_or("no listing was recorded")?;
+    let ins = parse_listing(before);
+    let names: Vec<&str> = ins.iter().map(|i| i.name.as_str()).collect();
+    let want = ["LoadName", "LoadAttr", "WriteTop", "LoadName", "PopJumpIfFalse"];
+    if names.len() < want.len() || names[..want.len()] != want || ins[0].strs != ["a"] || ins[1].strs != ["b"] || ins[4].jump.is_none() {
+        return Err(format!("the listing of `{{{{ a.b }}}}{{% if c %}}x{{% endif %}}` does not read as {:?}: {:?}", want, before));
+    }
+    Ok(())
+}
+
 pub fn run(rep: &Report) {
+    if let Err(why) = guard(listing_format_ok).unwrap_or_else(|p| Err(p)) {
+        rep.inconclusive(&format!("the instruction listing format is not the one the structure walk reads ({why}); structural claims not judged"));
+        return;
+    }
     rep.set_rule("every template set is registered twice on the same thread, once with the optimisation pass switched off (hook) and once with it on while the instruction listings before/after the pass are recorded (hook); (1) structure: a lock-step walk over both listings checks that the optimised chunk is the original with only `LoadName LoadAttr* [WriteTop]` groups replaced by LoadPath/WritePath with the same names, that no absorbed instruction other than the first of a group is a jump target, and that every jump lands on the image of its original target, for the main chunk and every block/component chunk; (2) behaviour: both registrations are rendered with the same contexts (each path position present, missing, none, explicit undefined or of a non-map kind) and must give the same text or both fail. Families: 570 fixed shapes x 18 contexts (exhaustive), generated path-heavy programs (and/or, ternaries, if/elif, loops with break/continue, comprehensions, kwargs, captures, ?. and __tera_context), the expression and statement generators of C02/C03. Non-trivial: a set whose optimised listing fuses a group adjacent to a jump; distinct by sources.");
     rep.assume("hooks are additive and cfg-guarded (tera/src/verif.rs); the listing is the Debug output of Chunk");
     for k in rep.known.clone() {
